@@ -40,6 +40,16 @@ func limitsPrograms(r *rand.Rand, L int) []*Program {
 			add(fmt.Sprintf("str+bool %d+4", total-4), Def("x", str(total-4)), Def("r", Bin("+", Id("x"), Bool(true))))
 			add(fmt.Sprintf("str+arr %d+4", total-4), Def("x", str(total-4)), Def("r", Bin("+", Id("x"), Arr(Int(1), Int(2)))))
 		}
+		// the empty string as left operand: the result is the rendering of the right operand alone, which must respect the maximum too
+		if total >= 1 {
+			add(fmt.Sprintf("empty+int %d", total), Def("x", Str("")), Def("r", Bin("+", Id("x"), Int(int64(pow10(total))))))
+			add(fmt.Sprintf("empty+str %d", min0(total, L)), Def("x", Str("")), Def("r", Bin("+", Id("x"), str(min0(total, L)))))
+		}
+		if total >= 2 {
+			add(fmt.Sprintf("empty+arr %d", total), Def("x", Str("")), Def("r", Bin("+", Id("x"), Arr(Int(int64(pow10(total-2)))))))
+			add(fmt.Sprintf("empty+=arr %d", total), Def("x", Str("")), Set("x", nil, "+=", Arr(Int(int64(pow10(total-2))))))
+			add(fmt.Sprintf("empty+map %d", total), Def("x", Str("")), Def("r", Bin("+", Id("x"), Map([]string{"k"}, []*Node{Int(int64(pow10(max0(total-5))))}))))
+		}
 		// conversions producing strings / bytes of a given length
 		add(fmt.Sprintf("string(int) len %d", total), Def("r", Call(Id("string"), Int(int64(pow10(total))))))
 		add(fmt.Sprintf("bytes(N) %d", total), Def("r", Call(Id("bytes"), Int(int64(total)))))
@@ -91,6 +101,13 @@ func pow10(n int) int {
 		v *= 10
 	}
 	return v
+}
+
+func min0(a, b int) int {
+	if a < b {
+		return a
+	}
+	return b
 }
 
 func max0(n int) int {
